@@ -28,7 +28,94 @@ class C10(ParserSessionProp):
         k['max_len'] = rng.choice([3, 4, 5]) if tier == 'quick' else rng.choice([4, 5, 6])
         return k
 
+    large_k_every = {'quick': 300, 'thorough': 120}
+
+    def generate(self, seed, index, tier, options):
+        e = self.large_k_every.get(tier, 0)
+        if not (e and index % e == e // 2):
+            return super().generate(seed, index, tier, options)
+        # large-k run: thousands of parses requested from a sentence with millions of derivations (8 words, three
+        # categories that all combine): the n-best bookkeeping at a size no enumerating reference can follow; the
+        # count of derivations comes from a polynomial dynamic program
+        from depsim import gen
+        rng = gen.stream(seed, 'C10:largek', index)
+        nprng = gen.np_stream(rng)
+        head = rng.random() < 0.5
+        table = {f'Y{i} || Y{j}': [[f'Y{(i + 2 * j) % 3}', f'r{i}{j}', f'<r{i}{j}>', head]] for i in range(3) for j in range(3)}
+        sentences = []
+        for sid, n in enumerate([8, rng.choice([3, 4])]):
+            tag, dep = gen.make_scores(nprng, rng, n, 3, rng.choice(['continuous', 'quantised']))
+            sentences.append({'words': [f'k{sid}x{i}' for i in range(n)], 'tag': gen.arr_to_hex(tag),
+                              'dep': gen.arr_to_hex(dep), 'style': 'continuous', 'rich': False, 'favoured': None})
+        wspec = {'family': 'synth-left' if head else 'synth-right',
+                 'grammar': {'kind': 'synth', 'heads': 'left' if head else 'right', 'binary': table, 'unary': {},
+                             'categories': ['Y0', 'Y1', 'Y2'], 'roots': rng.sample(['Y0', 'Y1', 'Y2'], rng.choice([1, 3])),
+                             'lang': 'en'},
+                 'sentences': sentences}
+        k = rng.choice([2000, 5000])
+        op = {'op': 'call', 'batch': [1, 0], 'processes': 1, 'max_chunk_size': 20, 'unary_penalty': 0.1, 'beta': 1e-5,
+              'use_beta': False, 'pruning_size': 3, 'nbest': k, 'max_step': 20000000, 'max_length': 250}
+        return {'prop': self.id, 'seed': seed, 'index': index, 'world': wspec, 'ops': [op],
+                'knobs': {'family': 'large_k', 'fault_class': 'none', 'nbest': k}, 'executor': 'inprocess'}
+
+    def check_large_k(self, world, op, rec, stats):
+        out = []
+        cfg = session.cfg_of(op)
+        k = cfg['nbest']
+        penalty = session.f32(cfg['unary_penalty'])
+        bump(stats, 'large_k_calls')
+        if rec.exception is not None:
+            return out
+        for pos, sid in enumerate(op['batch']):
+            resp = rec.responses[pos]
+            p = rec.per_sentence[pos]
+            n = world.n(sid)
+            admitted = [set(range(len(world.categories))) for _ in range(n)]
+            total = refparser.count_derivations(n, world.categories, admitted, world.memo, world.roots)
+            best = refparser.viterbi(n, world.tag0[sid], world.dep0[sid], world.categories, admitted, world.memo,
+                                     world.roots, penalty)
+            bump(stats, 'evaluations')
+            stats['counters']['largest_k'] = max(stats['counters'].get('largest_k', 0), k)
+            stats['counters']['largest_derivation_count'] = max(stats['counters'].get('largest_derivation_count', 0), total)
+            add_set(stats, 'nontrivial', digest(('large_k', sid, k, total)))
+            cut = p is not None and p['pops'] >= p['max_step']
+            got = 0 if refparser.is_placeholder(resp) else len(resp)
+            expect = min(k, total)
+            if not cut and got != expect:
+                out.append(Violation(oracle='count', message=(
+                    f'sentence {sid}: {got} parses returned for k={k}; the sentence has {total} derivations'),
+                    signature={'kind': 'count_large_k'}))
+                return out
+            if got == 0:
+                continue
+            scores = [st.score for st in resp]
+            mass = float(abs(world.tag0[sid]).max(axis=1).sum() + abs(world.dep0[sid]).max(axis=1).sum()) + 1.0
+            tol = refparser.score_tolerance(mass)
+            if any(b > a + tol for a, b in zip(scores, scores[1:])):
+                out.append(Violation(oracle='ordered', message=f'sentence {sid}: {k}-best scores not non-increasing',
+                                     signature={'kind': 'order'}))
+                return out
+            if len({refparser.canon_tree(st.tree) for st in resp}) != got:
+                out.append(Violation(oracle='distinct', message=f'sentence {sid}: duplicate trees among {got}',
+                                     signature={'kind': 'dup'}))
+                return out
+            if abs(scores[0] - best) > tol:
+                out.append(Violation(oracle='first_is_one_best', message=(
+                    f'sentence {sid}: first of {k}-best has score {scores[0]:.6f}, the best derivation has {best:.6f}'),
+                    signature={'kind': 'first'}))
+                return out
+            for rank in sorted(set([0, 1, got // 2, got - 1])):
+                st = resp[rank]
+                want, m2 = refparser.tree_score(st.tree, world.tag0[sid], world.dep0[sid], world.cat_index, penalty)
+                if abs(want - st.score) > refparser.score_tolerance(m2):
+                    out.append(Violation(oracle='each_tree_scored', message=f'sentence {sid} rank {rank}: score mismatch',
+                                         signature={'kind': 'score'}))
+                    return out
+        return out
+
     def check_call(self, world, op, rec, stats, spec):
+        if spec.get('knobs', {}).get('family') == 'large_k':
+            return self.check_large_k(world, op, rec, stats)
         out = []
         if rec.exception is not None or rec.ub or rec.unraisable:
             return out
